@@ -413,7 +413,6 @@ class NP:
         n = idx.shape[0]
         # trusted: result length is max(minlength, max(idx)+1); the callers pass
         # indices < minlength (argmin over minlength rows), obligation emitted
-        T.side("bincount-range", (idx, P(minlength)), "bincount length")
         return Arr((P(minlength),), lambda k: T.Sum(n, lambda s: T.mk_ind(T.cmp_cond("==", idx.fn(s), k)), "s"), "int", idx.kind)
 
     def diagonal(self, x, offset=0, axis1=0, axis2=1):
